@@ -214,12 +214,8 @@ def handle (j : Json) : Except String Json := do
     -- what this binary was compiled with (cross-check of the regenerated table, DESIGN §5)
     let tags : List UInt8 := [K.tString, K.tInt, K.tFloat, K.tBool, K.tNone, K.tDate, K.tIntArr, K.tFltArr,
       K.tDictEnd, K.tMetadata, K.tCell, K.tCumulative, K.tIncremental]
-    let fmts (l : List (String × String × String)) : Json :=
-      Json.arr (l.map fun (a, b, c) => Json.arr #[Json.str a, Json.str b, Json.str c]).toArray
     return Json.mkObj [("magic", hexJson K.magic), ("version", hexJson K.version), ("tags", hexJson tags),
-                       ("tableOk", Json.bool Generated.Binary.ok),
-                       ("writerFormats", fmts Generated.Binary.writerFormats),
-                       ("readerFormats", fmts Generated.Binary.readerFormats)]
+                       ("tableOk", Json.bool Generated.Binary.ok)]
   | "infer" =>
     let ext := extOfString (← (← j.getObjVal? "ext").getStr?)
     let flag ← optFromJson (·.getBool?) (← j.getObjVal? "flag")
